@@ -24,6 +24,10 @@ CFGS = [
     ("pct66", {"tol_pct": 66}),
     ("pct33.3", {"tol_pct": 33.3}),
     ("pct12", {"tol_pct": 12}),
+    # both tolerances configured, either one binding
+    ("tol3-pct20", {"tol_n": 3, "tol_pct": 20}),
+    ("tol0-pct60", {"tol_n": 0, "tol_pct": 60}),
+    ("tol1-pct34-min2", {"tol_n": 1, "tol_pct": 34, "min_ok": 2}),
 ]
 
 
@@ -160,6 +164,12 @@ def window_cases(tier, seed):
 def explicit_all(tier, seed):
     yield from explicit(tier, seed)
     yield from window_cases(tier, seed)
+    # a branch resumed by the in-process timer that finishes (parks again) before its done-callback is attached - the callback then runs
+    # inline on the timer thread: the call must still return (scenarios shared with C07: late service timers under after-sync perturbation)
+    from checks.c07 import late_timer_cases
+
+    for c in late_timer_cases(tier, seed):
+        yield dict(c, label="c09-" + c["label"])
 
 
 def deciding(r):
@@ -173,7 +183,7 @@ SPEC = Spec(
     explicit=explicit_all,
     quick={"plain": 0, "enum": 0, "rand": 0, "async": 0},
     thorough={"plain": 0, "enum": 0, "rand": 0, "async": 0},
-    rule="map/parallel with 0-8 items x 17 completion configurations (incl. percentages that separate truncated from exact failure shares) (defaults, presets, min_successful, tolerated count / percentage and "
+    rule="map/parallel with 0-8 items x 20 completion configurations (incl. percentages that separate truncated from exact failure shares) (defaults, presets, min_successful, tolerated count / percentage and "
     "combinations) x max_concurrency in {None,1,2,n} x per-branch behaviour in {succeed, fail, timed suspend, suspend on callback, block "
     "inside the step function} x a completion order forced by conductor gates inside the step functions (gate k is released only after "
     "the previous branch body has exited; blocked branches are released only once the call has returned), followed by a wait so the "
